@@ -195,6 +195,41 @@ class CFG:
                     break
             self.ipdom[b] = None if best is None or best == EXIT else best
 
+    def uses_from(self, b):
+        """names of registers read in blocks reachable from b (liveness approximation)"""
+        cache = getattr(self, '_uses_from', None)
+        if cache is None:
+            cache = self._uses_from = {}
+        if b in cache:
+            return cache[b]
+        seen = set()
+        stack = [b]
+        while stack:
+            x = stack.pop()
+            if x in seen:
+                continue
+            seen.add(x)
+            stack.extend(self.succs[x])
+        used = set()
+
+        def walk(v):
+            if isinstance(v, dict):
+                if v.get('k') in ('reg', 'param', 'freevar') and 'name' in v:
+                    used.add(v['name'])
+                for vv in v.values():
+                    walk(vv)
+            elif isinstance(v, list):
+                for vv in v:
+                    walk(vv)
+        for x in seen:
+            for ins in self.blocks[x]['instrs']:
+                for k, v in ins.items():
+                    if k in ('name', 'type', 'pos'):
+                        continue
+                    walk(v)
+        cache[b] = used
+        return used
+
     def innermost_loop(self, b):
         best = None
         for h, body in self.loops.items():
